@@ -50,18 +50,56 @@ class _B64Stub:
 
 
 class _Zlib:
-    def compress(self, b):
+    def compress(self, b, *a, **kw):
+        if not isinstance(b, (SymBytes, bytes)):
+            raise TypeError("a bytes-like object is required, not 'str'")
         return b"<compressed>"
 
-    def decompress(self, b):
-        return e3.SymStr.of('{"k": 1}')
+    def decompress(self, b, *a, **kw):
+        return b'{"k": 1}'
+
+
+ASCII_JSON = [ord(c) for c in '{}":, \\u19afnt[]-.e']
+NON_ASCII = [0xE9, 0x4E2D, 0x1F600, 0xD83D, 0xDC00, 0x7F, 0x85]  # incl. lone surrogates: legal in a Python str
+
+
+class SymBytes:
+    """opaque result of str.encode(): only its existence matters to the stubs"""
+
+
+class _JsonText(e3.SymStr):
+    def encode(self, encoding="utf-8", errors="strict"):
+        enc = encoding.lower().replace("-", "").replace("_", "")
+        for ch in self.c:
+            if enc in ("utf8", "utf16", "utf32"):
+                if errors == "strict" and e3.cin(ch, set(range(0xD800, 0xE000)) & set(NON_ASCII)):
+                    raise UnicodeEncodeError(enc, "?", 0, 1, "surrogates not allowed")
+            elif enc in ("ascii", "latin1"):
+                lim = 0x80 if enc == "ascii" else 0x100
+                if errors == "strict" and e3.cin(ch, {a for a in NON_ASCII if a >= lim}):
+                    raise UnicodeEncodeError(enc, "?", 0, 1, "ordinal not in range")
+            else:
+                raise E.ModelGap(f"encoding {encoding}")
+        return SymBytes()
 
 
 class _Json:
-    def dumps(self, d):
-        return e3.SymStr.of('{"k": 1}')
+    """json.dumps(d) for an arbitrary JSON-faithful d whose strings hold arbitrary code points:
+    with ensure_ascii=True (the default) the text is ASCII, otherwise any code point may appear."""
 
-    def loads(self, s):
+    def __init__(self, ctx):
+        self.ctx = ctx
+
+    def dumps(self, d, ensure_ascii=True, **kw):
+        alpha = ASCII_JSON if ensure_ascii else ASCII_JSON + NON_ASCII
+        cs = []
+        for i in range(3):
+            v = z3.Int(f"j{i}")
+            self.ctx.assume(z3.Or(*[v == a for a in sorted(set(alpha))]))
+            cs.append(v)
+        return _JsonText([ord("{")] + cs + [ord("}")])
+
+    def loads(self, s, **kw):
         return {"k": 1}
 
 
@@ -84,7 +122,7 @@ def task(m):
         c = E.ctx()
         stub = _B64Stub(m, c)
         saved = {k: sys.modules.get(k) for k in ("base64", "json", "zlib")}
-        sys.modules["base64"], sys.modules["zlib"], sys.modules["json"] = stub, _Zlib(), _Json()
+        sys.modules["base64"], sys.modules["zlib"], sys.modules["json"] = stub, _Zlib(), _Json(c)
         try:
             enc = mod.encode_data({"k": 1})
             dec = mod.decode_data(enc)
@@ -98,7 +136,25 @@ def task(m):
     out["queries"] = c.stats.queries
     for pc, outcome, asserts in paths:
         if outcome[0] != "value":
-            out["problems"].append(dict(kind=outcome[0], detail=str(outcome[1])))
+            pr = dict(kind=outcome[0], detail=f"{type(outcome[1]).__name__}: {outcome[1]}" if outcome[0] == "raise" else str(outcome[1]))
+            if outcome[0] == "raise":
+                # replay: a dictionary whose text holds the offending code points
+                s_ = z3.Solver()
+                s_.add(*asserts)
+                if str(s_.check()) == "sat":
+                    m_ = s_.model()
+                    txt = "".join(chr(m_.eval(z3.Int(f"j{i}"), model_completion=True).as_long()) for i in range(3))
+                    from stationeers_pytrapic.types import decode_data as _dd, encode_data as _ed
+
+                    doc = {"code": txt}
+                    try:
+                        ok = _dd(_ed(doc)) == doc
+                        if ok:
+                            continue  # does not replay
+                        pr["replayed"] = f"decode_data(encode_data({doc!r})) differs"
+                    except Exception as ex:
+                        pr["replayed"] = f"encode/decode of {doc!r} raises {type(ex).__name__}: {ex}"
+            out["problems"].append(pr)
             continue
         stub, enc, dec = outcome[1]
         s = z3.Solver()
